@@ -106,3 +106,7 @@ def run(ctx, nsample):
             ctx.mismatch(f'decide_new_state differs from the model on {keep[k * per + i]}',
                          {'decide_case': keep[k * per + i]})
     ctx.extra['decide_cases_compared'] = len(items)
+    ctx.extra['decide_space_exhaustive'] = (nsample >= 6 * 2 * 6 * 3 * 2 * 6 * 3 * 2)
+    if ctx.extra['decide_space_exhaustive']:
+        ctx.notes.append('decision function: the whole abstraction space for <= 2 dependencies was compared '
+                         '(statuses x clock orders x hard/soft), ' + str(len(items)) + ' cases')
